@@ -14,7 +14,8 @@ EXHAUSTIVE = ("rank 1, n=0..4 (thorough: 0..5): all windows start in [0,n+2] x e
               "Ellipsis forms - read on the array and on every valid window")
 RULE = ("Case = one index expression applied (read or write) to a DataArray or to a DataView window and compared "
         "with NumPy.  Rank 1 is enumerated completely (see exhaustive_subspace); ranks 2-4 are sampled from the same "
-        "component alphabet, one Ellipsis at any position.  Distinct by (rank, object, window class per dimension, "
+        "component alphabet, one Ellipsis at any position; integer components also as NumPy integers of every width (uint8 ... int64) on arrays of 300-1000 "
+        "elements and on windows that start beyond the range of the narrow types.  Distinct by (rank, object, window class per dimension, "
         "component kinds, read|write, outcome class); trivial = none.")
 ASSUMPTIONS = ["expressions are ints, slices of positive step, None bounds and at most one Ellipsis, with at most rank components (A10)",
                "steps <= 0 may be refused with any error",
